@@ -46,6 +46,12 @@ def exec_validate(ctx, prop, req, module="Val_Streams", mode="text", min_lines=1
         r = recs.get(f["i"], {})
         q = r.get("q", {})
         k = f.get("k", 1)
+        if "toks" in q:
+            sig = dict(verdict=f["verdict"], lang=q.get("lang"), thr=q.get("thr"),
+                       tokens=json.dumps([(t["t"], "sep" if t.get("sep") else "nan" if t.get("nan") else "") for t in q["toks"]], ensure_ascii=False),
+                       batch=json.dumps([(o["s"], o["e"], o["t"]) for o in (r.get("batch") or {}).get("v", [])], ensure_ascii=False))
+            ctx.failures.append(dict(verdict=f["verdict"], cls="%s/%s" % (f["verdict"], q.get("lang")), sig=sig, request=q))
+            continue
         texts = q.get("texts") or [q.get("text", "")]
         thrs = q.get("thrs") or [q.get("thr", "0")]
         multi = r.get("multi") or [r]
